@@ -137,6 +137,9 @@ static void run_case(const std::string& cid, Toks& t) {
         else if (what == "add" || what == "subtract") { ParCSRMatrix* Bm = LB.csr(); C = (what == "add") ? A->add(Bm) : A->subtract(Bm); }
         else { ParMatrix* M = A; for (size_t i = 0; i < ops.size(); i++) M = papply(M, ops[i]); C = M->to_ParCSR(); }
         emit_all(cid, "S", struct_str(C)); emit_all(cid, "T", parmat_triples(C)); emit0(cid, "DONE", "1");
+    } else if (op == "selftest_stray") {
+        // harness self-test: one message per rank that nobody receives (VERIF_DRAIN=1 must report it)
+        int v = 42; MPI_Send(&v, 1, MPI_INT, (g_rank + 1) % g_np, 4242, MPI_COMM_WORLD); emit0(cid, "DONE", "1");
     } else if (op == "pbig") {
         // cid pbig B tap ppn k op1..opk     ops: F (b = A x) / T (b = A^T x), operation q uses the vector x_q
         // A (formula, n = P*B): a_ii = 2; for rows of rank p < P-1: a_{i, (p+1)B + i%B} = 1 + i%3.  One-directional chain of
